@@ -102,6 +102,22 @@ fn c13(limit: usize, waiters: usize) {
     c13_with(limit, waiters, false)
 }
 
+/// With `live` tokens alive, at most `limit - live` further requests may be served.
+fn overshoot_check(runner: &fastcgi_server::async_io::Runner, limit: usize, live: usize) {
+    let mut extra: Vec<Token> = Vec::new();
+    for _ in 0..(limit - live + 1) {
+        let f = Arc::new(Flag { woken: AtomicBool::new(false), wakes: AtomicUsize::new(0) });
+        let w = Waker::from(f);
+        let mut cx = Context::from_waker(&w);
+        let fut = runner.get_token();
+        futures_util::pin_mut!(fut);
+        if let Poll::Ready(t) = fut.poll(&mut cx) { extra.push(t); }
+    }
+    if live + extra.len() > limit {
+        violation("C13", &format!("{} connection tokens alive with a limit of {limit}", live + extra.len()));
+    }
+}
+
 /// `cancel_first`: the oldest queued request is cancelled (dropped) on this thread while the other thread drops
 /// the tokens - the freed slot must still reach one of the remaining requests.
 fn c13_with(limit: usize, waiters: usize, cancel_first: bool) {
@@ -185,6 +201,8 @@ fn c13_with(limit: usize, waiters: usize, cancel_first: bool) {
             }
         }
     }
+    // the books must balance after the race: never more tokens than the limit
+    if reqs.is_empty() { overshoot_check(&runner, limit, granted.len()); }
 }
 
 /// All slots taken, one request queued. This thread cancels it while another thread queues a new request; the
@@ -573,6 +591,7 @@ fn main() {
             c13(1, 2);
             c13_with(1, 2, true);
             c13_with(2, 3, true);
+            c13_with(2, 1, true);
             c13_cancel_vs_new(1);
             c13_cancel_vs_new(2);
             c13_register_vs_release(1);
